@@ -1,1 +1,93 @@
-// placeholder
+//! C01 — branch node: separators pushed through `BranchNodeBuilder` (with a shared, compressed
+//! prefix for the first `pc` of them and an uncompressed tail) are reconstructed exactly by
+//! `get_key`, keep their node pointers, and `search_branch(key)` returns the last separator <= key
+//! (None below the first) for every key.
+
+use crate::pages::*;
+use nomt::verif_api::beatree::branch_node::{get_key, BranchNode, BranchNodeBuilder};
+use nomt::verif_api::beatree::{search_branch, separator_len};
+
+fn key3(b0: u8, b1: u8, b2: u8) -> [u8; 32] {
+    let mut k = [0u8; 32];
+    k[0] = b0;
+    k[1] = b1;
+    k[2] = b2;
+    k
+}
+
+fn val(k: &[u8; 32]) -> u32 {
+    (k[0] as u32) << 16 | (k[1] as u32) << 8 | k[2] as u32
+}
+
+/// n separators; the first `pc` share their first byte (prefix_len = 8 bits) and are stored
+/// prefix-compressed, the remaining n - pc have a larger first byte and are stored whole.
+pub fn branch_search(n: usize, pc: usize) {
+    let pool = zero_pool();
+    let p0: u8 = kani::any();
+    let mut keys = [[0u8; 32]; 4];
+    let mut pns = [0u32; 4];
+    let mut i = 0;
+    while i < n {
+        let b0: u8 = if i < pc { p0 } else { kani::any() };
+        keys[i] = key3(b0, kani::any(), kani::any());
+        if i >= pc {
+            kani::assume(b0 > p0);
+        }
+        if i > 0 {
+            kani::assume(val(&keys[i - 1]) < val(&keys[i]));
+        }
+        pns[i] = kani::any();
+        i += 1;
+    }
+    let mut b = BranchNodeBuilder::new(BranchNode::new_in(&pool), n, pc, 8);
+    let mut i = 0;
+    while i < n {
+        b.push(keys[i], separator_len(&keys[i]), pns[i]);
+        i += 1;
+    }
+    let node = b.finish();
+    assert!(node.n() as usize == n && node.prefix_compressed() as usize == pc);
+    let mut i = 0;
+    while i < n {
+        assert!(get_key(&node, i) == keys[i], "separator not reconstructed");
+        assert!(node.node_pointer(i) == pns[i], "node pointer lost");
+        i += 1;
+    }
+    // search == "last separator <= q"
+    let q = key3(kani::any(), kani::any(), kani::any());
+    let mut want: Option<usize> = None;
+    let mut i = 0;
+    while i < n {
+        if val(&keys[i]) <= val(&q) {
+            want = Some(i);
+        }
+        i += 1;
+    }
+    let got = search_branch(&node, q);
+    match (got, want) {
+        (None, None) => {}
+        (Some((ix, _pn)), Some(w)) => assert!(ix == w, "search_branch picked the wrong child"),
+        _ => panic!("search_branch disagrees with the model"),
+    }
+    kani::cover!(want.is_none(), "key below the first separator");
+    kani::cover!(want == Some(n - 1) && q[0] > p0, "key beyond the shared prefix");
+    if n >= 2 {
+        kani::cover!(want == Some(0), "key under the first child");
+    }
+    core::mem::forget(node);
+    core::mem::forget(pool);
+}
+
+macro_rules! bs {
+    ($name:ident, $n:expr, $pc:expr) => {
+        #[kani::proof]
+        pub fn $name() {
+            branch_search($n, $pc)
+        }
+    };
+}
+bs!(c01_branch_n1_pc1, 1, 1);
+bs!(c01_branch_n2_pc2, 2, 2);
+bs!(c01_branch_n2_pc1, 2, 1);
+bs!(c01_branch_n3_pc2, 3, 2);
+bs!(c01_branch_n3_pc1, 3, 1);
